@@ -8,16 +8,21 @@
    The decoder is C01's [dispatch] (total by construction).  Definitions only, executable. *)
 From Coq Require Import ZArith List Bool.
 From Slsk Require Import C01.Types C01.Model.
+From SlskGen Require Import ConnGen.
 Import ListNotations.
 Open Scope N_scope.
 
-Definition hdr_size (obf : bool) : nat := if obf then 8%nat else 4%nat.
+(* header sizes and the position of the length field: GENERATED (SlskGen.ConnGen, from
+   HEADER_SIZE_* and DataConnection._read_message) *)
+Definition hdr_size (obf : bool) : nat := if obf then CONN_HDR_OBF else CONN_HDR_PLAIN.
+Definition frame_len (decoded_header : bytes) : N :=
+  leval (firstn CONN_LEN_WIDTH (skipn CONN_LEN_OFFSET decoded_header)).
 
 (* one frame (header ++ message) off the front of the buffer, if it is complete *)
 Definition split_frame (obf : bool) (buf : bytes) : option (bytes * bytes) :=
   if Nat.leb (hdr_size obf) (length buf) then
     let header := firstn (hdr_size obf) buf in
-    let n := leval (wire_decode obf header) in
+    let n := frame_len (wire_decode obf header) in
     let rest := skipn (hdr_size obf) buf in
     if n <=? len rest
     then Some (header ++ firstn (N.to_nat n) rest, skipn (N.to_nat n) rest)
@@ -89,11 +94,15 @@ Section Reader.
     | [] => (delivered, true)
     | fr :: r =>
         match D (wire_decode obf fr) with
-        | None => handle r delivered                       (* MessageDeserializationError: logged, loop continues *)
+        | None =>                                          (* MessageDeserializationError: logged, loop continues *)
+            if decode_wraps_every_exception then handle r delivered
+            else (delivered, false)                        (* an unwrapped parser exception would end the reader task *)
         | Some m =>
             match h delivered m with
             | HCancels => (delivered ++ [m], false)
-            | _ => handle r (delivered ++ [m])            (* an Exception of the callback is logged *)
+            | HRaises =>                                  (* an Exception of the callback is logged *)
+                if callback_guarded_by_exception then handle r (delivered ++ [m]) else (delivered ++ [m], false)
+            | HOk => handle r (delivered ++ [m])
             end
         end
     end.
@@ -121,6 +130,35 @@ Section Reader.
   Definition rinit : rstate M := mkR [] false true [].
   Definition rrun (evs : list ev) : rstate M := fold_left rstep evs rinit.
 End Reader.
+
+(* ------------------------------------------------------------------------------------ *)
+(* write side: DataConnection.send_message / queue_message / queue_messages              *)
+
+Inductive send_path := PSendMessage | PQueueMessage | PQueueMessages.
+
+(* every message becomes one frame, obfuscated on its own (fresh key), written in order *)
+Definition frames_on_wire (obf : bool) (kfs : list (bytes * bytes)) : bytes :=
+  concat (map (fun kf => wire_encode obf (fst kf) (snd kf)) kfs).
+
+(* all frames joined and obfuscated once with the first key: what a batching send would write *)
+Definition joined_on_wire (obf : bool) (kfs : list (bytes * bytes)) : bytes :=
+  match kfs with
+  | [] => []
+  | kf :: _ => wire_encode obf (fst kf) (concat (map snd kfs))
+  end.
+
+(* [kfs] = (key drawn by obfuscation.encode, serialised frame) per message, in call order.  The shape
+   decisions come from SlskGen.ConnGen (translate/tr_conn.py). *)
+Definition sent_wire (p : send_path) (obf : bool) (kfs : list (bytes * bytes)) : bytes :=
+  let per_call := if andb one_frame_per_send_message frame_obfuscated_on_its_own
+                  then frames_on_wire obf kfs else joined_on_wire obf kfs in
+  match p with
+  | PSendMessage => per_call
+  | PQueueMessage => if queue_message_is_send_message then per_call else []
+  | PQueueMessages =>
+      if andb queue_messages_in_order_one_each queue_message_is_send_message then per_call
+      else joined_on_wire obf kfs
+  end.
 
 (* ------------------------------------------------------------------------------------ *)
 (* accept path: the first frame of an incoming connection                                *)
